@@ -20,7 +20,8 @@ Open Scope Z_scope.
 
 (* ---- values ---- *)
 Definition part := (Z * list Z)%type.               (* (oid, canonical contents) *)
-(* shape: 0 scalar, 1 list, 2 dict, 3 set, 4 tuple (tuple object, inner list, scalar), 9 error *)
+(* shape: 0 scalar, 1 list, 2 dict, 3 set, 4 tuple (tuple object, inner list, scalar),
+   5 a TraitListObject (fires the "<name>_items" event when mutated; 1 is a plain Python list), 9 error *)
 Record value := mkV { v_shape : Z; v_parts : list part }.
 
 (* ---- trait definitions ---- *)
@@ -114,8 +115,8 @@ Fixpoint zlist_eqb (a b : list Z) : bool :=
 Definition default_value (t : tdef) (next : Z) : value * Z :=
   match t_kind t with
   | KConst => (mkV 0 [(0, t_content t)], next)                     (* result = trait->default_value *)
-  | KListCopy | KTraitList | KFactory | KMethod | KUnion =>
-      (mkV 1 [(next, t_content t)], next + 1)                      (* a new list object per call *)
+  | KListCopy | KFactory => (mkV 1 [(next, t_content t)], next + 1)   (* a new list object per call *)
+  | KTraitList | KMethod | KUnion => (mkV 5 [(next, t_content t)], next + 1)
   | KDictCopy | KTraitDict => (mkV 2 [(next, t_content t)], next + 1)
   | KTraitSet => (mkV 3 [(next, t_content t)], next + 1)
   | KTuple => (mkV 4 [(next, []); (next + 1, t_content t); (0, [t_scalar t])], next + 2)
@@ -124,6 +125,10 @@ Definition default_value (t : tdef) (next : Z) : value * Z :=
 (* kinds whose default is produced by a user callable the harness counts *)
 Definition counted (t : tdef) : bool :=
   match t_kind t with KFactory | KMethod => true | _ => false end.
+
+(* class traits that come with a "<name>_items" event trait (handler.has_items) *)
+Definition has_items (k : kind) : bool :=
+  match k with KTraitList | KTraitDict | KTraitSet | KMethod => true | _ => false end.
 
 Definition vcontent (v : value) : list Z := concat (map snd (v_parts v)).
 
@@ -135,6 +140,7 @@ Definition assigned_value (t : tdef) (content : list Z) (scalar : Z) (next : Z) 
 Definition mutate_value (v : value) (x : Z) : value :=
   match v_shape v, v_parts v with
   | 1, (o, c) :: r => mkV 1 ((o, c ++ [x]) :: r)                       (* list.append(x) *)
+  | 5, (o, c) :: r => mkV 5 ((o, c ++ [x]) :: r)
   | 2, (o, c) :: r => mkV 2 ((o, c ++ [x; x]) :: r)                    (* d[x] = x, x a new key *)
   | 3, (o, c) :: r => mkV 3 ((o, insert_sorted x c) :: r)              (* s.add(x) *)
   | 4, p :: (o, c) :: r => mkV 4 (p :: (o, c ++ [x]) :: r)             (* t[0].append(x) *)
@@ -226,17 +232,32 @@ Section Step.
             end
         end
     | Mutate _ n x =>
+        (* a TraitListObject whose "<n>_items" event is not a trait yet gets it added on the instance when it
+           first fires (trait_items_event -> add_trait), which also fires trait_added *)
+        let items_fix (v : value) (its : list (Z * tdef)) : list (Z * tdef) :=
+          if (v_shape v =? 5)
+             && negb (match alookup n (class_of ins) with Some ct => has_items (t_kind ct) | None => false end) then
+            match alookup (items_name n) its with
+            | Some _ => its
+            | None =>
+                let its1 := its ++ [(items_name n, mkT KEvent [] 0 0 0 false)] in
+                match alookup trait_added its1, alookup trait_added (class_of ins) with
+                | None, Some ta => its1 ++ [(trait_added, ta)]
+                | _, _ => its1
+                end
+            end
+          else its in
         match alookup n (i_dict ins) with
         | Some v =>
-            (mkI (i_cls ins) (aset n (mutate_value v x) (i_dict ins)) (i_itraits ins) (i_calls ins) (i_log ins)
-                 (i_regs ins), mkV 0 [], w_next w)
+            (mkI (i_cls ins) (aset n (mutate_value v x) (i_dict ins)) (items_fix v (i_itraits ins)) (i_calls ins)
+                 (i_log ins) (i_regs ins), mkV 0 [], w_next w)
         | None =>
             match resolve ins n with
             | None => (ins, error_value, w_next w)
             | Some t =>
                 let '(ins', v, next') := materialise ins n t in
-                (mkI (i_cls ins') (aset n (mutate_value v x) (i_dict ins')) (i_itraits ins') (i_calls ins')
-                     (i_log ins') (i_regs ins'), mkV 0 [], next')
+                (mkI (i_cls ins') (aset n (mutate_value v x) (i_dict ins')) (items_fix v (i_itraits ins'))
+                     (i_calls ins') (i_log ins') (i_regs ins'), mkV 0 [], next')
             end
         end
     | Register _ n hid via_observe =>
@@ -260,18 +281,37 @@ Section Step.
              mkV 0 [], w_next w)
         end
     | AddTrait _ n t =>
-        (* add_trait: "<n>_items" first for container traits, then a clone of the new trait carrying the
-           old trait's notifiers; the default object of the new trait is a new class-level-like object *)
-        let old := resolve ins n in
+        (* add_trait (has_traits.py l.2799-2870): for a container trait "<n>_items" is added first (recursive
+           call), then a clone of the new trait carrying the old trait's notifiers.  Adding a name that had
+           no trait fires the trait_added event, whose static handler goes through _change_accepted and so
+           clones trait_added into the instance traits.  The default object of the new trait is a new
+           class-level-like object. *)
         let container := match t_kind t with KConst => false | _ => true end in
-        let its0 := if container
-                    then aset (items_name n) (mkT KEvent [] 0 0 0 false) (i_itraits ins)
-                    else i_itraits ins in
+        let fire (its : list (Z * tdef)) : list (Z * tdef) :=
+          match alookup trait_added its, alookup trait_added (class_of ins) with
+          | None, Some ta => its ++ [(trait_added, ta)]
+          | _, _ => its
+          end in
+        let its0 :=
+          if container then
+            let known := match alookup (items_name n) (i_itraits ins) with
+                         | Some _ => true
+                         | None => match alookup n (class_of ins) with
+                                   | Some ct => has_items (t_kind ct)
+                                   | None => false
+                                   end
+                         end in
+            let nn0 := match alookup (items_name n) (i_itraits ins) with Some it => t_nnotif it | None => 0 end in
+            let its := aset (items_name n) (mkT KEvent [] 0 0 nn0 false) (i_itraits ins) in
+            if known then its else fire its
+          else i_itraits ins in
+        let old := match alookup n its0 with Some t0 => Some t0 | None => alookup n (class_of ins) end in
         let '(doid, next') := if container then (w_next w, w_next w + 1) else (0, w_next w) in
         let nn := match old with Some ot => t_nnotif ot | None => 0 end in
         let st := match old with Some ot => t_static ot | None => false end in
+        let its1 := aset n (mkT (t_kind t) (t_content t) (t_scalar t) doid nn st) its0 in
         (mkI (i_cls ins) (i_dict ins)
-             (aset n (mkT (t_kind t) (t_content t) (t_scalar t) doid nn st) its0)
+             (match old with Some _ => its1 | None => fire its1 end)
              (i_calls ins) (i_log ins) (i_regs ins),
          mkV 0 [], next')
     | NewInst _ => (ins, error_value, w_next w)
